@@ -236,6 +236,20 @@ def build_classes(job, workdir):
         if i not in classes:
             classes[i] = build_direct(specs, i, classes)
     out = [classes[i] for i in range(len(specs))]
+    if compiled and not job.get("_compile_error"):
+        # what the definition compiler really emitted (e.g. a length-1 array becomes a scalar, padding fields
+        # are added): the harness works from the descriptors of the real classes, not from its request
+        index_of = {c: i for i, c in enumerate(out)}
+        specs = list(specs)
+        for i in compiled:
+            try:
+                sp = spec_of(out[i], index_of)
+                sp.pop("imported", None)
+                sp["name"] = specs[i]["name"]
+                sp["type_hash"] = getattr(out[i], "type_hash", 0)
+                specs[i] = sp
+            except (KeyError, ValueError):
+                pass
     if job.get("imports"):
         cs, ispecs = import_classes(job["imports"], len(specs))
         out += cs
